@@ -3718,6 +3718,9 @@ class ControlConnection(object):
         )
 
         for host in lbp.make_query_plan():
+            if self._is_shutdown:
+                # e.g. a reconnection that was queued before the shutdown
+                raise DriverException("[control connection] Reconnection in progress during shutdown")
             try:
                 return self._try_connect(host)
             except ConnectionException as exc:
